@@ -37,6 +37,8 @@ func (n *mnode) String() string {
 		return "removeKeyed(" + kit.TypeName(n.T) + ",a)"
 	case "nil":
 		return "nil"
+	case "addnil":
+		return fmt.Sprintf("add%d(nil-service)", n.T)
 	case "gate":
 		return "GATE"
 	}
@@ -80,6 +82,9 @@ func genTree(rt *rapid.T, depth int, regs *[]kit.Reg) *mnode {
 		switch {
 		case c <= 1 && depth < 5:
 			n.Children = append(n.Children, genTree(rt, depth+1, regs))
+		case c == 2 && rapid.IntRange(0, 3).Draw(rt, "nilservice") == 0:
+			// a registration entry built from a nil service: fails like the direct call does
+			n.Children = append(n.Children, &mnode{Leaf: "addnil", T: rapid.IntRange(0, 2).Draw(rt, "nilLife")})
 		case c == 2:
 			n.Children = append(n.Children, &mnode{Leaf: "nil"})
 		case c == 3:
@@ -103,6 +108,14 @@ func (n *mnode) option(w *kit.World) godi.ModuleOption {
 		return removeOption(n.T, true)
 	case "nil":
 		return nil
+	case "addnil":
+		switch n.T {
+		case 0:
+			return godi.AddSingleton(nil)
+		case 1:
+			return godi.AddScoped(nil)
+		}
+		return godi.AddTransient(nil)
 	case "gate":
 		return n.Gate
 	}
@@ -202,6 +215,15 @@ func TestC20Modules(t *testing.T) {
 				errB = wb.Register(cb, &wb.Cfg.Regs[lf.N.Reg])
 				if errB == nil {
 					refB.add(wb.Cfg.Regs[lf.N.Reg])
+				}
+			case "addnil":
+				switch lf.N.T {
+				case 0:
+					errB = cb.AddSingleton(nil)
+				case 1:
+					errB = cb.AddScoped(nil)
+				default:
+					errB = cb.AddTransient(nil)
 				}
 			case "remove":
 				cb.Remove(kit.RType(lf.N.T))
